@@ -169,35 +169,38 @@ def c(ctx):
     cfg = cfg_of(fi)
     pops = [(k, n) for k, n in stores_to(fi.node, "self.outgoing_requests", nested=False) if k in ("pop", "delitem")]
     adds = [c for c in calls_in(fi.node) if isinstance(c.func, ast.Attribute) and c.func.attr == "add_response"]
+    ctx.need(adds, "process_response: no add_response site")
+    # Decided on the path model: on every normal path that delivers the response, the value passed as
+    # is_last, the reference condition `not (request asked to observe and response carries Observe)` and
+    # "the registration was removed on this path" all agree.  Independent of how the branches are spelled.
+    from ..paths import PathModel
+    pm = PathModel(fi)
+    popnodes = {cfg.loc1(p_) for _k, p_ in pops}
+    look = [n for n in walk_no_nested(fi.node) if isinstance(n, ast.Subscript) and chain(n.value) == "self.outgoing_requests" and isinstance(n.ctx, ast.Load)]
     for c_ in adds:
         il = next((kw.value for kw in c_.keywords if kw.arg == "is_last"), None)
         ctx.need(il is not None, "add_response without is_last keyword")
         fin = resolve_local(fi.node, il)
         recv = c_.func.value
-        N = Normalizer()
-        try:
-            got = N.dnf(fin)
-        except norm.NormError:
-            got = None
         rname = recv.id if isinstance(recv, ast.Name) else "?"
         ref = ast.parse("not (%s.request.opt.observe == 0 and %s.opt.observe is not None)" % (rname, rs), mode="eval").body
-        ctx.ob("final = not (request asked to observe and the response carries an Observe option)", got is not None and got == N.dnf(ref), fi, c_, detail="is_last = %s" % stmt_text(fin))
-        for k, p in pops:
-            pn = cfg.loc1(p)
-            gs = guard_exprs(cfg, pn)
-            ok = any(pol and same(e, il) for e, pol in gs) or any(pol and isinstance(il, ast.Name) and same(resolve_local(fi.node, il), e) for e, pol in gs)
-            ctx.ob("the registration is retired exactly when the response is final", ok, fi, p, detail="guards: %s" % [stmt_text(e) for e, _ in gs])
-            others = [e for e, pol in gs if not same(e, il)]
-            ctx.ob("no further condition keeps a final response's registration alive", not others, fi, p)
-            keyv = p.args[0] if k == "pop" else p.targets[0].slice
-            look = [n for n in walk_no_nested(fi.node) if isinstance(n, ast.Subscript) and chain(n.value) == "self.outgoing_requests" and isinstance(n.ctx, ast.Load)]
-            ctx.ob("the retired key is the key that matched", any(same(keyv, l.slice) for l in look), fi, p)
-        if not pops:
-            ctx.ob("a final response always retires the registration", False, fi, c_, detail="no removal from outgoing_requests in process_response")
-        # non-final must keep it: the pop must not be unconditional -> covered by the guard above; final must pop:
-        tfinal = [n.id for n in cfg.nodes if n.kind == "T" and same(n.ast, il)]
-        for t in tfinal:
-            ctx.ob("a final response always retires the registration", cfg.must_pass(t, [cfg.loc1(p) for _, p in pops]), fi, cfg.nodes[t].ast)
+        dn = cfg.loc1(c_)
+        through = pm.paths_through(dn)
+        ctx.need(through, "process_response: delivery site on no normal path")
+        bad_ref = bad_pop = None
+        for p_ in through:
+            v = pm.truth(fin, p_)
+            r = pm.truth(ref, p_)
+            popped = any(n in popnodes for n in p_.nodes)
+            if (v is None or r is None or v != r) and bad_ref is None:
+                bad_ref = "on the path [%s]: is_last is %s, the reference condition is %s" % (pm.describe(p_), v, r)
+            if (v is None or popped != v) and bad_pop is None:
+                bad_pop = "on the path [%s]: is_last is %s, registration %s" % (pm.describe(p_), v, "removed" if popped else "kept")
+        ctx.ob("final = not (request asked to observe and the response carries an Observe option)", bad_ref is None, fi, c_, detail=bad_ref or "is_last = %s on %d path(s)" % (stmt_text(fin), len(through)))
+        ctx.ob("the registration is retired exactly when the response is final", bad_pop is None, fi, c_, detail=bad_pop)
+    for k, p_ in pops:
+        keyv = p_.args[0] if k == "pop" else p_.targets[0].slice
+        ctx.ob("the retired key is the key that matched", any(same(keyv, l.slice) for l in look) or any(same(resolve_local(fi.node, keyv), resolve_local(fi.node, l.slice)) for l in look), fi, p_)
 
 
 @R.clause("C02.d", "tokens: 64-bit counter advanced only by next_token, injective rendering, assigned before the key is formed")
